@@ -883,9 +883,16 @@ def r11_generator_state_per_object(ctx, rule):
     no_shared_class_state(ctx, rule, ['lib_guesser/omen/'], 6, 'the object is shared by every instance of the class: a second session / queue / generator created in the same process starts with (and keeps changing) the state of the first one')
 
 
+def _omen_reader_strip(ctx, rule):
+    # the generator enumerates the model that is on disk only if its readers remove the line terminator and nothing else (seed
+    # C10-j: newline='\n' with rstrip('\n') kept the CR of CR LF files on every n-gram)
+    from . import c07, c11
+    return c07.r5_strip_discipline(ctx, rule, only=c11._OMEN_READERS, floor=4)
+
+
 def rules(tier):
     return [('C10.R1', r1_copy_discipline), ('C10.R2', r2_memo_key), ('C10.R3', r3_sibling_constructions), ('C10.R4', r4_exact_last_transition),
-            ('C10.R5', r5_sibling_cursor_advance), ('C10.R6', r6_model_immutable), ('C10.R7', r7_prune_discipline), ('C10.R8', r8_guess_from_tree), ('C10.R9', r9_level_cursor_domain), ('C10.R10', r10_cache_key_agreement), ('C10.R11', r11_generator_state_per_object), ('C10.R12', r12_hit_implies_stored), ('C10.R13', r13_window_slices), ('C10.R14', r14_zero_budget_is_valid)]
+            ('C10.R5', r5_sibling_cursor_advance), ('C10.R6', r6_model_immutable), ('C10.R7', r7_prune_discipline), ('C10.R8', r8_guess_from_tree), ('C10.R9', r9_level_cursor_domain), ('C10.R10', r10_cache_key_agreement), ('C10.R11', r11_generator_state_per_object), ('C10.R12', r12_hit_implies_stored), ('C10.R13', r13_window_slices), ('C10.R14', r14_zero_budget_is_valid), ('C10.R15', _omen_reader_strip)]
 
 
 META = {
